@@ -239,8 +239,9 @@ EP_IDS = ["e1", "e10", "e2", "E3", "é4", "e5", "ep-6", "e07", "e8", "e9", "a", 
 OWNERS = ["A", "B", "world", ""]
 NOW_ISO = "2025-06-15T12:00:00Z"
 NOW_MS = 1_749_988_800_000  # 2025-06-15T12:00:00Z
-_AGES_S = [0, 3600, 86400, 6 * 86400 + 43200, 7 * 86400, 7 * 86400 + 1, 29 * 86400, 30 * 86400, 30 * 86400 + 1,
+_AGES_S = [0, 3600, 43200, 82800, 90000, 86400, 6 * 86400 + 43200, 7 * 86400, 7 * 86400 + 1, 29 * 86400, 30 * 86400, 30 * 86400 + 1,
            31 * 86400, 100 * 86400, 364 * 86400, 400 * 86400, -3600]
+_AGES_SUBDAY = [60, 3600, 6 * 3600, 43200, 82800, 86399, 86400 + 60, 2 * 86400 - 1]  # ages differing within one calendar day
 _EP_WORDS = st.one_of(st.lists(st.sampled_from(VOCAB), min_size=0, max_size=4), st.lists(st.sampled_from(VOCAB[:5]), min_size=1, max_size=4))
 
 
@@ -275,11 +276,15 @@ def episode_lists(draw, max_eps: int = 12, owners=None, allow_missing_ts: bool =
             vec = [0.0] * len(VOCAB)
         else:
             vec = None
+        if eps and draw(st.sampled_from([False, False, False, True])):
+            # exact duplicate of an earlier episode's content: cosine ties, so recency / importance / id decide the order
+            twin = draw(st.sampled_from(eps))
+            text, vec = twin["text"], (None if twin["vec_full"] is None else list(twin["vec_full"]))
         ep = {"id": eid, "owner": draw(st.sampled_from(owners)), "text": text, "vec_full": vec}
         if allow_missing_ts and draw(st.sampled_from([False] * 11 + [True])):
             pass
         else:
-            ep["ts"] = iso_minus(now_iso, draw(st.sampled_from(_AGES_S)), z=draw(st.booleans()))
+            ep["ts"] = iso_minus(now_iso, draw(st.sampled_from(_AGES_S + _AGES_SUBDAY)), z=draw(st.booleans()))
         aux = {}
         if draw(st.booleans()):
             aux["cluster_id"] = draw(st.sampled_from(["c1", "c2", "c3"]))
